@@ -18,7 +18,7 @@ TL_DERIVE = ["tl_copy", "tl_copy_func", "tl_crop_loose", "tl_crop_strict", "tl_c
 TL_TO_ANN = ["to_annotation"]
 PURE_OPS = ["co_iter", "mul", "to_rttm", "to_lab", "eq", "ne", "chart", "argmax", "itertracks", "labels", "contains",
             "discretize", "tl_co_iter", "tl_covers", "tl_eq", "tl_to_uem", "tl_overlapping", "tl_str",
-            "absent_label", "absent_segment", "internal_views", "ann_all_reads", "tl_all_reads"]
+            "absent_label", "absent_segment", "internal_views", "ann_all_reads", "tl_all_reads", "mutator_args"]
 RULE = ("for every deriving operation of Annotation and Timeline (copy, crop x3, extrude x3, support, subset, "
         "rename_labels copy/generated, rename_tracks, relabel_tracks, update(copy=True), get_timeline, label_timeline, "
         "label_support, get_overlap, to_annotation, Timeline copy/crop/extrude/support/gaps/segmentation/union) in each "
@@ -76,6 +76,9 @@ def _snap(tb, x):
                 "timeline": [tb.us(s) for s in tl], "label_tls": [[tb.us(s) for s in x.label_timeline(l)] for l in x.labels()],
                 "extent": tb.us(tl.extent())}
     if isinstance(x, Timeline):
+        members = list(x)
+        assert len(x) == len(members) and bool(x) == bool(members), "len() / bool() of a timeline disagree with its iteration"
+        assert all(m in x for m in members) and x == Timeline(members), "membership / == of a timeline disagree with its iteration"
         return {"recs": [], "labels": [], "uri": x.uri, "modality": None, "timeline": [tb.us(s) for s in x],
                 "label_tls": [], "extent": tb.us(x.extent())}
     raise TypeError(type(x))
@@ -248,6 +251,42 @@ def run(case):
         elif op == "tl_to_uem": t.to_uem()
         elif op == "tl_overlapping": t.overlapping(tb.t(3))
         elif op == "tl_str": str(t); repr(t); len(t); t.duration()
+        elif op == "mutator_args":
+            # in-place operations that take another object: the ARGUMENT is only read - unchanged right after the
+            # call and unaffected by later edits of the receiver (and conversely); both size relations
+            far = tb.t(5000)
+            for recv0, arg in ((t, to), (to, t)):
+                for how in ("update", "ior"):
+                    recv = recv0.copy()
+                    b_arg = _snap(tb, arg)
+                    if how == "update":
+                        recv.update(arg)
+                    else:
+                        recv |= arg
+                    assert _snap(tb, arg) == b_arg, f"Timeline {how} changed its argument"
+                    recv.add(Segment(far, far + 1))
+                    for m_ in list(arg)[:2]:
+                        recv.discard(m_)
+                    assert _snap(tb, arg) == b_arg, f"editing the receiver of Timeline {how} changed the argument"
+                    b_recv = _snap(tb, recv)
+                    arg2 = arg.copy()            # the argument itself must stay as it is for the final comparison
+                    recv2 = recv0.copy()
+                    recv2.update(arg2) if how == "update" else recv2.__ior__(arg2)
+                    b2 = _snap(tb, recv2)
+                    arg2.add(Segment(far + 3, far + 4))
+                    for m_ in list(arg2)[:1]:
+                        arg2.remove(m_)
+                    assert _snap(tb, recv2) == b2, f"editing the argument of Timeline {how} changed the receiver"
+                    assert _snap(tb, recv) == b_recv
+            for copy_flag in (False, True):
+                recv = a.copy()
+                b_arg = _snap(tb, other)
+                res = recv.update(other, copy=copy_flag)
+                assert _snap(tb, other) == b_arg, "Annotation.update changed its argument"
+                for s_ in list(res.itersegments()):
+                    res[s_, "zz_m"] = "zz_l"
+                    del res[s_, sorted(res.get_tracks(s_), key=str)[0]]
+                assert _snap(tb, other) == b_arg, "editing the result of Annotation.update changed the argument"
         elif op == "absent_label":
             # every query that takes a label, asked about a label the annotation does not carry
             for lab in ("zz_absent", 12345, ""):
